@@ -14,6 +14,11 @@ SRC = os.environ.get('FURAX_SRC', os.path.join(REPO, 'src'))
 if SRC not in sys.path:
     sys.path.insert(0, SRC)
 
+import warnings  # noqa: E402
+
+warnings.filterwarnings('ignore', message='Error reading persistent compilation cache')
+warnings.filterwarnings('ignore', message='Error writing persistent compilation cache')
+
 import jax  # noqa: E402
 
 jax.config.update('jax_enable_x64', True)
